@@ -16,15 +16,12 @@ TSnap == /\ IsEvent("Snap") /\ Ev.readable /\ ~Ev.torn
          /\ (CreateExcl \/ CommitBatch \/ TempCommit \/ CommitFinal)
          /\ file' = Proj
 \* killed at an unknown instant: some number of steps happened; the observed file is the state reached
-RECURSIVE Reach(_, _, _)
-Reach(f, p, n) == IF n = 0 THEN {f} ELSE
-  {f} \cup (IF p = "start" THEN Reach([f EXCEPT !.exists = TRUE], "writing", n - 1) ELSE {})
-      \cup (IF p = "writing" /\ ~cfg.big /\ cfg.total - f.nv >= cfg.batch
-            THEN Reach([f EXCEPT !.bucket = TRUE, !.nv = @ + cfg.batch, !.header = (@ \/ HeaderFirst)], "writing", n - 1) ELSE {})
-      \cup (IF p = "writing" /\ (cfg.big \/ cfg.total - f.nv < cfg.batch)
-            THEN {[f EXCEPT !.bucket = TRUE, !.nv = cfg.total, !.header = TRUE]} ELSE {})
+\* every file state some sequence of creation steps can leave behind
+Reach == {NoFile, [NoFile EXCEPT !.exists = TRUE]}
+         \cup {[exists |-> TRUE, bucket |-> TRUE, header |-> h, nv |-> n] : n \in 0..cfg.total, h \in {HeaderFirst}}
+         \cup {[exists |-> TRUE, bucket |-> TRUE, header |-> TRUE, nv |-> cfg.total]}
 TKill == /\ IsEvent("Kill") /\ Ev.readable /\ ~Ev.torn
-         /\ Proj \in Reach(NoFile, "start", 2 + cfg.total)
+         /\ Proj \in Reach /\ (cfg.big => (Proj.nv = 0 \/ Proj.nv = cfg.total))
          /\ file' = Proj /\ alive' = FALSE /\ UNCHANGED <<cfg, pc>>
 TCrashOpen == /\ IsEvent("CrashOpen")
               /\ Ev.outcome = ExpectedOpen(file)                \* never panic / hang, never accepted when incomplete
